@@ -304,19 +304,25 @@ prop(
 
 prop(
     "C18",
-    ["LolHtml.Thm.C18_Isolation"],
+    ["LolHtml.Thm.C18_Isolation", "LolHtml.Thm.C18_Threads", "LolHtml.Thm.C18_ThreadsCore", "LolHtml.Thm.C18_ThreadsCApi"],
     [{"lane": "capi", "n_quick": 800, "n_thorough": 10000},
      {"lane": "thr", "n_quick": 300, "n_thorough": 3000, "impl_only": True}],
     "lane thr (impl only): the same rewrite on N threads with random yields, a send::HtmlRewriter migrated after every write, concurrent selector parsing, LAST_ERROR across threads; lane capi as for C17",
-    ["data races / memory ordering are not modelled; real threads are exercised by lane thr only",
+    ["INTERLEAVINGS (Model/Threads*.lean, Thm/C18_Threads*): a world of instances, per-thread slots and one value per item of the regenerated globals list, in which every mutable shared item may be changed ADVERSARIALLY by any step; for EVERY schedule (list of (thread, op) incl. create / write / end / free / migration of an instance to another thread / C-API calls / selector parsing), under the kernel-decided side-condition that the regenerated list has no mutable shared item (C18_threads_side_condition), each instance's observations equal those of its own op subsequence run alone (C18_interleaving_projection, C18_sequential_prediction = what lane thr compares real threads with), two schedules with the same per-instance subsequences agree (C18_schedule_independent), LAST_ERROR read by thread t depends only on t's own calls (C18_last_error_thread_local/_own_calls/_frame); instantiated with the real core model (C18_core_interleaved_rewrite: results, sink and event log = C01.run in any schedule; C18_core_repeat) and with the C-API model, one session per instance (capiThreadParametric, C18_capi_sessions, C18_capi_last_error); the theorems FAIL without the side-condition (C18_projection_fails_with_shared_counter, C18_migration_fails_with_thread_local_cache); assumed: atomicity at API-call granularity, no globals inside dependencies (lane thr samples), sessions do not share a C-API Env",
+     "data races / memory ordering are not modelled; real threads are exercised by lane thr only",
      "the list of global items is re-extracted from every *.rs under src/ and c-api/src/ on every run (translate/globals2lean.py)", PKG_SCOPE],
     level_text=("Lean 4 theorems: the generated list of global items has no mutable item in the core crate and only the "
                 "thread-local LAST_ERROR in the C API (C18_no_globals, by decide on the list re-extracted from the sources); "
                 "an operation by thread t changes only slot t and take returns the latest error of the same thread "
-                "(C18_last_error_isolated, C18_take_latest); a run is a function of (policy, program, calls). PARTIAL: "
-                "interleavings themselves are not modelled."),
+                "(C18_last_error_isolated, C18_take_latest); a run is a function of (policy, program, calls). Interleavings: for every "
+                "schedule of threads over instances (creation, writes, end, free, migration between threads, C-API calls), under "
+                "the decided side-condition that the regenerated globals list has no mutable shared item, each instance's "
+                "observations equal those of its own operations run alone and LAST_ERROR of a thread depends on its own calls only "
+                "(C18_interleaving_projection, C18_schedule_independent, C18_last_error_thread_local), instantiated with the real "
+                "rewriter model (C18_core_interleaved_rewrite) and the C-API model (C18_capi_sessions). PARTIAL: steps are atomic at "
+                "API-call granularity; data races inside a call and globals of dependencies are outside the model."),
     level_note="Trusted: Lean kernel; globals translator; ledger model (lane capi); real threads only sampled (lane thr).",
-    technique="Lean 4 proof (decidable obligation on the translated global-items list + per-thread slot invariant) + thread lane",
+    technique="Lean 4 proof (decidable obligation on the translated global-items list + non-interference by induction over arbitrary thread schedules with adversarial mutable globals + per-thread slot invariant) + thread lane",
     design_ref="DESIGN.md section 4 C18",
 )
 
